@@ -36,3 +36,20 @@ package statsdaemon
 //@   ensures  dgramOK(buf, line, client.packetSize)
 //@   modifies everything
 //@   preserves statsdaemon.Client, sender.Sender
+
+// constructEventMessage (C17/C19): the header of the event line announces the lengths of what follows it -- the
+// title as given and the text *after* its newlines have been escaped -- and exactly those two strings follow; the
+// optional fields are written from the event's own fields.
+//@ func constructEventMessage
+//@   requires e != nil
+//@   callsite Replace requires arg0 == e.Text && arg3 == -1
+//@   callsite Itoa[len(e.Title)] requires arg0 == len(e.Title)
+//@   callsite Itoa[len(text)] requires arg0 == len(lastresult(strings.Replace, 0))
+//@   callsite WriteString[String(e.Title)] requires s == e.Title && calls(Itoa) == 2
+//@   callsite WriteString[String(text)] requires s == lastresult(strings.Replace, 0) && calls(Itoa) == 2
+//@   callsite WriteString[String(e.AggregationKey)] requires s == e.AggregationKey
+//@   callsite WriteString[String(e.SourceTypeName)] requires s == e.SourceTypeName
+//@   callsite FormatInt requires arg0 == e.DateHappened
+//@   ensures  calls(Replace) == 1 && calls(Itoa) == 2
+//@   loop 1 invariant calls(Replace) == 1 && calls(Itoa) == 2
+//@   modifies everything
